@@ -28,8 +28,8 @@ def setup(ctx):
 
 def plan(tier, seed):
     if tier == "quick":
-        return ([{"n_cases": 45, "mode": "A", "hashseed": i % 2} for i in range(6)] +
-                [{"n_cases": 40, "mode": "AD", "hashseed": i % 2} for i in range(6)])
+        return ([{"n_cases": 130, "mode": "A", "hashseed": i % 2} for i in range(6)] +
+                [{"n_cases": 70, "mode": "AD", "hashseed": i % 2} for i in range(6)])
     return ([{"n_cases": 400, "mode": "A", "hashseed": i % 4} for i in range(8)] +
             [{"n_cases": 350, "mode": "AD", "hashseed": i % 4} for i in range(8)])
 
@@ -39,9 +39,14 @@ def gen_case(rng, ctx):
     nmax = (9 if rng.random() < 0.15 else 7) if thorough else (7 if rng.random() < 0.3 else 6)
     if "D" in ctx.mode:
         nmax = min(nmax, 7 if thorough else 6)
+    if rng.random() < 0.25:
+        # critical band: small pure cycles under a scheme whose tie cost sits around 1/3 .. 1/2 .. 1 of the inversion cost
+        cls, ds = gen.dataset(rng, classes="D9 D9 D11", n=rng.choice([3, 3, 4, 5, 6]), mmax=6)
+        ds = libx.normalise_raw(ds)
+        return {"ds": ds, "scheme": gen.scheme_ratio_band(rng), "dcls": cls, "scls": "S11"}
     cls, ds = gen.dataset(rng, classes="D11 D11 D11 D9 D9 D2 D3 D4 D7 D10 D8", nmax=nmax, mmax=6)
     ds = libx.normalise_raw(ds)
-    scls, sch = gen.scheme(rng, "S1 S2 S3 S3 S3 S6")
+    scls, sch = gen.scheme(rng, "S1 S2 S3 S3 S3 S6 S9 S11 S11 S11")
     return {"ds": ds, "scheme": sch, "dcls": cls, "scls": scls}
 
 
